@@ -15,6 +15,19 @@ CHECKS = {
              "assumed within 1e-12 relative (checked on every sampled case, not proved).",
         technique="Lean 4 proof over translator-generated tables + differential correspondence",
         design="§6 C06"),
+    "C08": dict(
+        text="Lean theorems over the sampler / lifecycle model: iterate_n(a+b) = iterate_n(a); iterate_n(b), run = iterate_n(k) for the k "
+             "the wall clock allows, completion absorbs every drive call, any two driving schedules that reach completion give the same "
+             "records / clock / state, set-up from any non-crashed process state observes the same (clean slate), every data member is "
+             "assigned in Init (generated inventory), the generator is seeded once in Init and advanced only by draws (generated inventory "
+             "of every statement mentioning rng), an algorithm that ignores a state component records the same trajectory whatever it is "
+             "(Euler over the concrete eulerStep), the stored script keeps the drawn seed. Harness: bitwise comparison of real "
+             "trajectories: fresh-process reference vs random schedules (iterate / iterate_n / run 0|1 ms), reused and fresh engine objects "
+             "after earlier simulations of other kinds, simulate_script, re-run of trajectory.script (also seed None), other seed (Euler).",
+        note="Lean kernel + {propext, Classical.choice, Quot.sound}; translator; harness; bit-identity of the compiled arithmetic and "
+             "of mt19937 streams is observed (sha1 of the raw arrays), not proved.",
+        technique="Lean 4 proof over an executable model tied to translator-generated inventories + bitwise differential runs in sandboxed processes",
+        design="§6 C08"),
     "C09": dict(
         text="Lean theorems over an executable model of the native sampler (Sample, SampleOnTSample, SampleOnInterval, SamplingStep, "
              "CheckTMax, Init's t=0 step, the Iterate skeleton of the six algorithms; abstract algorithm step, exact clock): shape and "
